@@ -4,6 +4,7 @@ package main
 
 import (
 	"fmt"
+	"regexp"
 	"strings"
 
 	"golang.org/x/tools/go/ssa"
@@ -116,7 +117,46 @@ func (w *World) verifyContract(con *Contract, opts *RunOpts) (res *FuncResult) {
 				}
 			}
 			outs := e.run(st.clone(), fn, sc.Args)
-			for _, o := range outs {
+			var twinOuts []Out
+			if tw, ok := con.option("twin"); ok {
+				tcon := &Contract{Pkg: con.Pkg, Func: strings.TrimSpace(tw)}
+				tfn := w.findFunc(tcon)
+				if tfn == nil {
+					panic(execPanic{"twin function " + tw + " not found"})
+				}
+				twinOuts = e.run(st.clone(), tfn, sc.Args)
+			}
+			// `option call-result emitter`: the function returns a func(*Emitter);
+			// the harness applies it to a fresh emitter, bound to `out`
+			var emitterRef Ref
+			if _, ok := con.option("call-result"); ok {
+				applyTo := func(in []Out) []Out {
+					var res []Out
+					for _, o := range in {
+						if o.Panic != "" {
+							res = append(res, o)
+							continue
+						}
+						cl, ok := o.Rets[0].(Closure)
+						if !ok || cl.Fn == nil {
+							panic(execPanic{"call-result: function result expected"})
+						}
+						pt := cl.Fn.Signature.Params().At(0).Type()
+						alts, _ := e.customShape("out", pt, "emitter")
+						ev, _ := alts[0](o.St)
+						emitterRef = ev.(Ref)
+						o.St.Ghost["harness:out"] = emitterRef
+						for _, o2 := range e.callClosure(o.St, cl, []Val{emitterRef}) {
+							o2.Rets = o.Rets
+							res = append(res, o2)
+						}
+					}
+					return res
+				}
+				outs = applyTo(outs)
+				twinOuts = applyTo(twinOuts)
+			}
+			for oi, o := range outs {
 				pathNo++
 				res.Stats.Paths++
 				e.scenario = strings.Join(sc.Desc, " ")
@@ -132,6 +172,23 @@ func (w *World) verifyContract(con *Contract, opts *RunOpts) (res *FuncResult) {
 				}
 				env2 := copyEnv(sc.Env)
 				bindResults(env2, o.Rets)
+				if r, ok := o.St.Ghost["harness:out"].(Ref); ok {
+					env2["out"] = r
+				}
+				if twinOuts != nil {
+					// relational obligation: the twin emits the same text modulo the decode call
+					goal := tFalse
+					note := "twin produced a different number of paths"
+					if len(twinOuts) == len(outs) && twinOuts[oi].Panic == "" {
+						t1, t2 := emittedOf(o.St), emittedOf(twinOuts[oi].St)
+						n1, n2 := normalizeUnmarshal(t1), normalizeUnmarshal(t2)
+						goal = mkBool(n1 == n2)
+						note = firstDiff(n1, n2)
+					}
+					ob := &Oblig{Kind: "relational", Name: con.Func + "/twin-text-equal", Goal: goal, PathNo: pathNo, Tags: con.Props, Where: note}
+					ob.ctx = &obCtx{shape: sc, pre: pre, post: o.St, rets: o.Rets, con: con}
+					e.emit(o.St, ob)
+				}
 				for k, en := range con.clauses("ensures") {
 					label := en.Label
 					if label == "" {
@@ -303,4 +360,53 @@ func sameVal(a, b Val, loc string, exempt map[string]bool) *T {
 		return mkBool(b == nil)
 	}
 	return tFalse
+}
+
+func emittedOf(s *State) Text {
+	r, ok := s.Ghost["harness:out"].(Ref)
+	if !ok {
+		return Text{}
+	}
+	em := s.load(r).(*Agg)
+	t, _ := s.Ghost[sbKey(r.sub(structFieldIndex(em.Typ, "sb")))].(Text)
+	return t
+}
+
+var (
+	reJSONDecode = regexp.MustCompile(`json\.Unmarshal\(value, (&[A-Za-z_.]+)\)`)
+	reYAMLDecode = regexp.MustCompile(`value\.Decode\((&[A-Za-z_.]+)\)`)
+	reHeader     = regexp.MustCompile(`func \(j \*([^)]+)\) Unmarshal(JSON|YAML)\(value (\[\]byte|\*yaml\.Node)\) error \{`)
+)
+
+// normalizeUnmarshal maps the JSON and the YAML rendering of an unmarshal
+// method to a common form: header, decode calls; comment lines dropped.
+func normalizeUnmarshal(t Text) string {
+	var lines []string
+	for _, l := range strings.Split(t.String(), "\n") {
+		if strings.Contains(l, "\x00COMMENT ") {
+			continue
+		}
+		l = reJSONDecode.ReplaceAllString(l, "DECODE($1)")
+		l = reYAMLDecode.ReplaceAllString(l, "DECODE($1)")
+		l = reHeader.ReplaceAllString(l, "func (j *$1) UNMARSHAL(value) error {")
+		lines = append(lines, strings.TrimSpace(l))
+	}
+	return strings.Join(lines, "\n")
+}
+
+func firstDiff(a, b string) string {
+	la, lb := strings.Split(a, "\n"), strings.Split(b, "\n")
+	for i := 0; i < len(la) || i < len(lb); i++ {
+		x, y := "", ""
+		if i < len(la) {
+			x = la[i]
+		}
+		if i < len(lb) {
+			y = lb[i]
+		}
+		if x != y {
+			return fmt.Sprintf("line %d: %q vs twin %q", i+1, x, y)
+		}
+	}
+	return "identical"
 }
